@@ -88,9 +88,12 @@ def csv_rule(draw, escapes=True, quotes=False, relative=False, tag_only_p=2):
     mods = draw(st.lists(st.one_of([amount_mod, date_mod] + ([relative_mod] if relative else [])), max_size=2))
     tag_only = draw(st.integers(0, 9)) < tag_only_p
     tags = draw(st.lists(st.sampled_from(['recurring', 'Food', 'INCOME', 'transfer', 'big-box', 'x y', '#tax', 'schedule #e']), min_size=1 if tag_only else 0, max_size=2))
-    return {'pattern': pat, 'mods': mods, 'merchant': draw(st.sampled_from(['Netflix', 'Uber', 'Big Box', 'Amazon', "O'Neil's", 'A, Inc', 'Store #12', 'C# Shop'])),
-            'category': '' if tag_only else draw(st.sampled_from(['Food', 'Subscriptions', 'Shopping', 'Bills & Utilities', 'Rental #1', 'Rental #2'])),
-            'subcategory': draw(st.sampled_from(['', 'Streaming', 'Online', 'Rideshare', 'Unit #1', 'Unit #2'])), 'tags': tags}
+    # hand-written CSV files often carry a blank after the comma (`NETFLIX, Netflix, Subscriptions`): the cell is then ' Netflix'
+    pad = draw(st.sampled_from([('', '')] * 5 + [(' ', ''), (' ', ' '), ('', '  ')]))
+    P = lambda x: (pad[0] + x + pad[1]) if x else x
+    return {'pattern': pat, 'mods': mods, 'merchant': P(draw(st.sampled_from(['Netflix', 'Uber', 'Big Box', 'Amazon', "O'Neil's", 'A, Inc', 'Store #12', 'C# Shop']))),
+            'category': '' if tag_only else P(draw(st.sampled_from(['Food', 'Subscriptions', 'Shopping', 'Bills & Utilities', 'Rental #1', 'Rental #2']))),
+            'subcategory': P(draw(st.sampled_from(['', 'Streaming', 'Online', 'Rideshare', 'Unit #1', 'Unit #2']))), 'tags': tags}
 
 
 def csv_file(max_rules=8, **kw):
@@ -155,4 +158,5 @@ def ref_classify(rules, txn):
     if winner is None:
         return {'winner': None, 'merchant': None, 'category': 'Unknown', 'subcategory': 'Unknown', 'tags': set(tags)}
     r = rules[winner]
-    return {'winner': winner, 'merchant': r['merchant'], 'category': r['category'], 'subcategory': r['subcategory'], 'tags': set(tags)}
+    # names are read without surrounding blanks (like patterns and tags)
+    return {'winner': winner, 'merchant': r['merchant'].strip(), 'category': r['category'].strip(), 'subcategory': r['subcategory'].strip(), 'tags': set(tags)}
